@@ -3,6 +3,7 @@ Reference values come from an independent walk of the JSON metadata
 (common.tree_shards) and from decoding every shard on its own."""
 from __future__ import annotations
 import collections
+import numpy as np
 import itertools
 import json
 import os
@@ -42,6 +43,14 @@ def build_layouts(root, fmt="fb", compression=""):
     _write_multi(d, [[10, 11, 12], [20], [30, 31, 32, 33]], "train")
     C.fill(d, range(40, 45), "train", rel="sub/deeper")
     C.fill(d, range(50, 52), "holdout")
+    # a directory, then a directory below it, then one below that (each in a
+    # session of its own)
+    d2 = C.mk_dataset(root / "deepening", fmt, compression, eps=2)
+    C.fill(d2, range(60, 63), "train", rel="a")
+    C.fill(d2, range(70, 72), "train", rel="a/b")
+    C.fill(d2, range(80, 81), "train", rel="a/b/c")
+    out["deepening"] = (root / "deepening", {"train": [60, 61, 62, 70, 71,
+                                                        80]})
     out["nested"] = (root / "nested", {
         "train": [0, 1, 2, 10, 11, 12, 20, 30, 31, 32, 33, 40, 41, 42, 43,
                   44], "holdout": [50, 51]})
@@ -346,6 +355,26 @@ def check_order(ctx):
                     break
             if bad:
                 break
+        # one handle (no recorded checksums) iterated, written to again and
+        # iterated again: same sequence as a fresh open, old examples first
+        if bad is None:
+            root = tmp / "live_order"
+            d = C.mk_dataset(root, "fb", "", eps=2, hashes=())
+            C.fill(d, range(0, 5), "train")
+            first = C.iterate(d, "numpy", "train")
+            C.fill(d, range(5, 9), "train")
+            C.fill(d, range(20, 23), "train", rel="sub")
+            ref = reference_sequence(d, root, "train")
+            for iface in ("numpy", "concurrent"):
+                n_eval += 1
+                a = C.iterate(d, iface, "train", file_parallelism=2)
+                b = C.iterate(Dataset(root), iface, "train", file_parallelism=2)
+                if not (a == b == ref) or ref[:5] != first:
+                    bad = dict(layout="handle iterated, written to, iterated "
+                               "again (hash_checksum_algorithms=())",
+                               interface=iface, kept_handle=a, fresh_open=b,
+                               expected=ref, first_pass=first)
+                    break
         # write order must also survive the selection options
         if bad is None:
             root = tmp / "md_order"
@@ -487,6 +516,45 @@ def check_selection(ctx):
                     pass
             if bad:
                 break
+        # the SAME predicate object asked again after its answer changed (a
+        # selector with state): every call evaluates it afresh
+        if bad is None:
+            root = tmp / "md_fb"
+            d = Dataset(root)
+
+            class Selector:
+                def __init__(self):
+                    self.allowed = {"A"}
+
+                def __call__(self, s):
+                    md = s.custom_metadata if hasattr(
+                        s, "custom_metadata") else s.get("custom_metadata", {})
+                    return md.get("k") in self.allowed
+            sel = Selector()
+            for iface in ("numpy", "concurrent"):
+                for allowed in ({"A"}, {"B"}, {"B", "C"}, set()):
+                    n_eval += 1
+                    sel.allowed = allowed
+                    try:
+                        ref = reference_sequence(d, root, "train", pred=sel)
+                    except ValueError:
+                        ref = []
+                    try:
+                        got = C.iterate(d, iface, "train", shard_filter=sel,
+                                        file_parallelism=2)
+                    except ValueError:
+                        got = "ValueError"
+                    except Exception as e:  # noqa: BLE001
+                        got = repr(e)[:200]
+                    if got != (ref if ref else "ValueError"):
+                        bad = dict(what="one predicate object whose answer "
+                                   "changes between calls", interface=iface,
+                                   allowed=sorted(allowed), got=got,
+                                   expected=ref or "ValueError (empty "
+                                   "selection)")
+                        break
+                if bad:
+                    break
         # one handle without recorded checksums: select, write more through
         # the same handle, select again - the selection sees the new shards
         if bad is None:
@@ -600,6 +668,40 @@ def check_repeat(ctx):
                     break
             if bad:
                 break
+        # a transformation (or consumer) that works in place on what it is
+        # handed: later epochs still deliver the one-pass sequence
+        if bad is None:
+            for fmt2 in ("npz", "fb"):
+                root2 = tmp / ("inplace_" + fmt2)
+                d2 = C.mk_dataset(root2, fmt2, "", eps=2)
+                C.fill(d2, range(0, 5), "train")
+                d2 = Dataset(root2)
+
+                def inplace(e):
+                    v = e["v"]
+                    out = float(np.asarray(v).reshape(-1)[0])
+                    if isinstance(v, np.ndarray) and v.flags.writeable:
+                        v += 1000.0
+                    return out
+                for iface in ("numpy", "concurrent"):
+                    n_eval += 1
+                    kw = dict(split="train", repeat=True, shuffle=0,
+                              process_record=inplace)
+                    if iface == "concurrent":
+                        kw["file_parallelism"] = 2
+                    it = (d2.as_numpy_iterator(**kw) if iface == "numpy" else
+                          d2.as_numpy_iterator_concurrent(**kw))
+                    got = list(itertools.islice(it, 15))
+                    want = [float(i) for i in range(5)] * 3
+                    if got != want:
+                        bad = dict(fmt=fmt2, interface=iface, shuffle=0,
+                                   what="with a transformation that modifies "
+                                        "its argument in place, later epochs "
+                                        "differ from the first",
+                                   got=got, expected=want)
+                        break
+                if bad:
+                    break
         # the object returned by as_tfdataset is iterated several times
         # (e.g. once per training run): every iteration is a stream of its
         # own, starting at the beginning of the split
@@ -697,7 +799,10 @@ def check_damage(ctx):
             if tier == "quick" and comp == "LZ4":
                 kinds = ["emptied", "garbage"]   # codec errors of another type
             for kind in kinds:
-                for pos in positions:
+                # (quick tier: the LZ4 cases damage the LAST shard, which is
+                # not among the first file_parallelism shards handed out)
+                for pos in (positions if not (tier == "quick" and
+                                              comp == "LZ4") else [-1]):
                     root = tmp / f"{fmt}_{comp}_{kind}_{pos}"
                     d = C.mk_dataset(root, fmt, comp, eps=2)
                     C.fill(d, range(0, 8), "train")
@@ -741,6 +846,42 @@ def check_damage(ctx):
                                              interface=iface, shuffle=shuffle,
                                              outcome=what),
                                 finding_key=key))
+        # a repeating (endless) stream over a damaged shard: the error has to
+        # reach the consumer when the shard is first needed, not after some
+        # number of silent passes
+        for fmt, comp, kind in (("fb", "", "deleted"), ("fb", "LZ4", "garbage"),
+                                ("npz", "", "short-column")):
+            root = tmp / f"rep_{fmt}_{comp}_{kind}"
+            d = C.mk_dataset(root, fmt, comp, eps=2)
+            C.fill(d, range(0, 8), "train")
+            shards = C.tree_shards(root, "train")
+            _damage(root / shards[2][0]["file_infos"][0]["file_path"], kind)
+            d = Dataset(root)
+            for iface in ("numpy", "concurrent", "tf"):
+                for shuffle, fp in ((0, 2), (5, 2), (5, 16)):
+                    if iface == "numpy" and fp != 2:
+                        continue
+                    n_eval += 1
+                    try:
+                        got = C.iterate(d, iface, "train", shuffle=shuffle,
+                                        file_parallelism=fp, repeat=True,
+                                        limit=4 * 8, timeout=60)
+                        what = (f"delivered {len(got)} examples (4 passes' "
+                                f"worth) without an error") if len(got) >= 32 \
+                            else (f"the repeating stream ended normally after "
+                                  f"{len(got)} examples")
+                    except TimeoutError as e:
+                        what = "hang: " + str(e)
+                    except BaseException:  # noqa: BLE001
+                        continue
+                    fails.append(C.result(
+                        "damaged shard must raise", False,
+                        function="imap_unordered" if shuffle and
+                        iface != "numpy" else "as_numpy_iterator",
+                        witness=dict(fmt=fmt, compression=comp, damage=kind,
+                                     position=2, interface=iface,
+                                     shuffle=shuffle, file_parallelism=fp,
+                                     repeat=True, outcome=what)))
     # report: one entry per distinct (finding key or witness class)
     seen = set()
     for f in fails:
@@ -892,6 +1033,65 @@ def check_lazy(ctx):
                     break
         finally:
             IterateShardFlatBuffer.iterate_shard = orig
+        # the Rust-backed interface with a transformation: the transformation
+        # is applied as examples are taken, not to the whole epoch up front
+        if bad is None:
+            for fp in (1, 3):
+                for take in (1, 5):
+                    n_eval += 1
+                    calls = []
+
+                    def pr(e, calls=calls):
+                        calls.append(1)
+                        return e
+                    try:
+                        got = C.iterate(d, "rust", "train", limit=take,
+                                        repeat=True, shuffle=0,
+                                        file_parallelism=fp, process_record=pr,
+                                        timeout=60)
+                    except Exception as e:  # noqa: BLE001
+                        bad = dict(interface="rust", fp=fp, take=take,
+                                   outcome="failed: " + repr(e)[:200])
+                        break
+                    if len(got) != take or len(calls) > take + 16:
+                        bad = dict(interface="rust", fp=fp, take=take,
+                                   process_record_calls=len(calls),
+                                   bound=take + 16, dataset_examples=40,
+                                   what="transformation applied far ahead of "
+                                        "the consumer")
+                        break
+                if bad:
+                    break
+        # a slow mapped function (0.3 s per shard): the pool still hands out
+        # at most 2T+2 inputs beyond the results taken, however long the
+        # consumer waits for them
+        if bad is None:
+            import time as _t
+            from sedpack.io.itertools import LazyPool
+            for T in (2,):
+                n_eval += 1
+                pulled = []
+
+                def source():
+                    for k in range(1000):
+                        pulled.append(k)
+                        yield k
+
+                def slow(x):
+                    _t.sleep(0.3)
+                    return x
+                taken = 0
+                with LazyPool(T) as pool:
+                    for _ in pool.imap_unordered(slow, source()):
+                        taken += 1
+                        if len(pulled) > taken + 2 * T + 2:
+                            bad = dict(interface="LazyPool", threads=T,
+                                       seconds_per_call=0.3, results_taken=taken,
+                                       inputs_pulled=len(pulled),
+                                       bound=taken + 2 * T + 2)
+                        if taken >= 4 or bad:
+                            break
+                _wait_for_workers()
         if bad is None:
             # as_tfdataset (documents file_parallelism=None, "chosen
             # automatically"); in a child process watched for memory and time
